@@ -124,6 +124,10 @@ def _zero_test(test, var):
         t, sign = t.operand, -sign
     if isinstance(t, ast.Name) and t.id == var:
         return sign
+    if isinstance(t, ast.Compare) and len(t.ops) == 1 and norm(t.comparators[0]) == var and isinstance(t.left, ast.Constant):
+        # constant on the left (canonical orientation of `n > 0` is `0 < n`): mirror it
+        flip = {ast.Lt: ast.Gt, ast.LtE: ast.GtE, ast.Gt: ast.Lt, ast.GtE: ast.LtE, ast.Eq: ast.Eq, ast.NotEq: ast.NotEq}
+        t = ast.Compare(left=t.comparators[0], ops=[flip[type(t.ops[0])]()], comparators=[t.left]) if type(t.ops[0]) in flip else t
     if isinstance(t, ast.Compare) and len(t.ops) == 1 and norm(t.left) == var and isinstance(t.comparators[0], ast.Constant):
         c, op = t.comparators[0].value, t.ops[0]
         if (c == 0 and isinstance(op, (ast.Gt, ast.NotEq))) or (c == 1 and isinstance(op, ast.GtE)):
